@@ -149,8 +149,8 @@ func TestC11ListedOnceReturned(t *testing.T) {
 	if lab.Replaying() {
 		t.Skip()
 	}
-	rounds := lab.Share(lab.Scale(60, 1200))
-	perRound := lab.Scale(400, 800)
+	rounds := lab.Share(lab.Scale(200, 4000))
+	perRound := lab.Scale(600, 800)
 	var cur atomic.Value
 	cur.Store("")
 	wd := lab.StartWatchdog(t.Name(), name, lab.NoProgress, func() any { return cur.Load() })
